@@ -35,6 +35,12 @@ class ForkReq(Exception):
         self.states = states
 
 
+class TailCall:
+    """returned by a stub: call fid(args) in its place (e.g. sync.Pool.Get -> New)."""
+    def __init__(self, fid, args, binds=()):
+        self.fid, self.args, self.binds = fid, args, binds
+
+
 class ForkList(list):
     """returned by an intercept that forks: list of (state, value)."""
     pass
@@ -1182,6 +1188,8 @@ class Exec:
             self.res.stubs.add(name)
         if h is not None:
             v = h(self, st, fr, ins, args)
+            if isinstance(v, TailCall):   # the model continues in an interpreted function whose result is the call's result
+                return self.invoke(st, fr, ins, v.fid, v.args, v.binds)
             if isinstance(v, ForkList):   # fork: list of (state, value)
                 outs = []
                 for (s2, val2) in v:
